@@ -24,7 +24,7 @@ ASSUMPTIONS = ["exit callbacks: the exitstack family runs every flavour assignme
                "context managers (sync / async) and callbacks over all stacks of <=2 (thorough 3) entries x 6 behaviours x block outcome; "
                "the unwinding order itself is C14's subject"]
 KINDS = ["list", "seq", "iter", "agen", "aobj"]
-FLAV = ["def", "async", "partial", "obj", "objx"]   # objx: callable object whose failure is raised at call time
+FLAV = ["def", "async", "partial", "obj", "objx", "cls", "bound"]   # objx: callable object whose failure is raised at call time
 
 
 def _groupby_cases(tier):
@@ -112,6 +112,19 @@ def _run_awaitify(case):
                     return base_body(a)
                 return co()
         f = O()
+    elif fl == "cls":
+        class f:        # a class whose instances are awaitable
+            def __init__(self, *a):
+                self.a = a
+
+            def __await__(self):
+                return base_body(self.a)
+                yield
+    elif fl == "bound":
+        class H:
+            async def m(self, *a):
+                return base_body(a)
+        f = H().m
     else:
         class OX:
             def __call__(self, *a):
@@ -131,7 +144,8 @@ def _run_awaitify(case):
         if res.exc is not None:
             out.append(["exc", getattr(res.exc, "eid", None)] if hasattr(res.exc, "eid") else ["libexc", type(res.exc).__name__])
         elif _inspect.isawaitable(res.value):
-            res.value.close()
+            if hasattr(res.value, "close"):
+                res.value.close()
             out.append(["unawaited"])
         else:
             out.append(["val", res.value])
@@ -344,7 +358,9 @@ def observe(case):
 
 def model_request(case):
     if case.get("family") == "awaitify":
-        return {"m": "awaitify", "flavour": case["flavour"], "behs": case["behs"]}
+        # for Awaitify a class with awaitable instances is "a callable returning an awaitable" (like obj), a bound async
+        # method is a coroutine function (like async def)
+        return {"m": "awaitify", "flavour": {"cls": "obj", "bound": "async"}.get(case["flavour"], case["flavour"]), "behs": case["behs"]}
     if case.get("family") in ("types", "groupby", "exitstack", "special") or case["tool"] in s1.NO_MODEL:
         return None
     return tools.model_request(case)
